@@ -217,7 +217,7 @@ REPO_CFLAGS = ["-O0", "-g", "-std=gnu11", "-fsanitize=thread", "-DNDEBUG", "-D" 
                "-I" + os.path.join(REPO, "include"), "-I" + RT]
 
 
-def build_harness(ctx, name, harness_c, repo_sources=(), extra_flags=(), rt_objs=("rt.c",)):
+def build_harness(ctx, name, harness_c, repo_sources=(), extra_flags=(), rt_objs=("rt.c",), extra_rt=()):
     """compile harness + listed /repo sources with access instrumentation and
     link against the lock-step runtime (never libtsan)."""
     objs = []
@@ -227,7 +227,8 @@ def build_harness(ctx, name, harness_c, repo_sources=(), extra_flags=(), rt_objs
         if rc != 0:
             raise RuntimeError("rt build failed: " + out)
         objs.append(o)
-    srcs = [os.path.join(RT, harness_c)] + [os.path.join(REPO, s) for s in repo_sources]
+    srcs = [os.path.join(RT, harness_c)] + [os.path.join(RT, x) for x in extra_rt] + \
+           [os.path.join(REPO, s) for s in repo_sources]
     for s in srcs:
         o = os.path.join(ctx.scratch, "%s_%s.o" % (name, os.path.basename(s).replace(".c", "")))
         rc, out = sh(["gcc"] + REPO_CFLAGS + list(extra_flags) + ["-c", s, "-o", o])
